@@ -615,6 +615,9 @@ def parse_tag(tag: str) -> Optional[dict]:
         tag_name = t.group(0).replace(_cnt, "") if _cnt else t.group(0)
         file_number = "0" if t.group("file_type").upper() == "O" else "1"
         position_number = "0" if t.group("position_number") == None else t.group("position_number")
+        if t.group("file_number") is not None and int(t.group("file_number")) != int(file_number):
+            # the output file is file 0, the input file is file 1: O0:1, I1:1 (or O:1, I:1)
+            return None
         if t.group("sub_element") is not None:
             if (
                 (0 <= int(file_number) <= 255)
